@@ -14,6 +14,27 @@ def evOf : SExp → Option Ev
     guarded by a lock nobody holds (so any access to them is a violation). -/
 def handleSched (args : List SExp) : String :=
   match args with
+  | [.list gs, .list progs, .list rs] =>
+    -- with a ranking of the locks: also the ordered-acquisition check of the no-deadlock theorem
+    let gmap : List (Nat × Nat) := gs.filterMap fun
+      | .list [x, l] => do some (← x.nat?, ← l.nat?)
+      | _ => none
+    let rmap : List (Nat × Nat) := rs.filterMap fun
+      | .list [l, r] => do some (← l.nat?, ← r.nat?)
+      | _ => none
+    let guard (x : Nat) : Nat := ((gmap.find? (·.1 == x)).map (·.2)).getD 1000000
+    let rank (l : Nat) : Nat := ((rmap.find? (·.1 == l)).map (·.2)).getD 0
+    let ps : List (Option (List Ev)) := progs.map fun
+      | .list evs => evs.mapM evOf
+      | _ => none
+    match ps.mapM id with
+    | none => "bad-args"
+    | some ps =>
+      let bad := ps.zipIdx.filterMap fun (p, i) => if disciplined guard p.length ⟨[], [], p⟩ then none else some (toString i)
+      let unord := ps.zipIdx.filterMap fun (p, i) => if ordered guard rank p.length ⟨[], [], p⟩ then none else some (toString i)
+      if !bad.isEmpty then "undisciplined " ++ ",".intercalate bad
+      else if !unord.isEmpty then "unordered " ++ ",".intercalate unord
+      else "ok"
   | [.list gs, .list progs] =>
     let gmap : List (Nat × Nat) := gs.filterMap fun
       | .list [x, l] => do some (← x.nat?, ← l.nat?)
